@@ -39,6 +39,9 @@ pub enum Resolve {
     Both,
     HumanText,
     Abort,
+    /// resolve to the incoming side, but record the resolution with a plain `git commit`
+    /// before `<op> --continue` (what many people do at a cherry-pick / rebase stop)
+    TheirsViaCommit,
     /// `git cherry-pick --quit` at the conflict stop (keeps the commits already picked),
     /// then the conflicted work tree is cleaned; other operations treat it like Abort
     Quit,
@@ -204,6 +207,7 @@ pub fn resolve() -> impl Strategy<Value = Resolve> {
         3 => Just(Resolve::HumanText),
         2 => Just(Resolve::Abort),
         2 => Just(Resolve::Quit),
+        2 => Just(Resolve::TheirsViaCommit),
     ]
 }
 
@@ -738,7 +742,7 @@ impl Engine {
                 state = 0;
                 let mut chosen: Vec<String> = match how {
                     Resolve::Ours | Resolve::Abort | Resolve::Quit => ours.clone(),
-                    Resolve::Theirs => theirs.clone(),
+                    Resolve::Theirs | Resolve::TheirsViaCommit => theirs.clone(),
                     Resolve::Both => ours.iter().chain(theirs.iter()).cloned().collect(),
                     Resolve::HumanText => {
                         let t = self.w.model.fresh_token();
@@ -820,6 +824,14 @@ impl Engine {
             for p in &um {
                 self.resolve_file(p, how);
                 self.w.git(&["add", "--", p]);
+            }
+            if how == Resolve::TheirsViaCommit && !um.is_empty() && (op == "cherry-pick" || op == "rebase") {
+                rep.class(format!("resolution-recorded-with-plain-commit:{op}"));
+                // F47: a plain `git commit` at a sequencer stop runs the ordinary commit hooks
+                // (which know nothing of the pick in progress); the completion step then
+                // finds an already-annotated commit
+                self.set_taint("resolution-committed-by-hand-at-a-sequencer-stop", rep);
+                self.w.git_env(&["commit", "--no-edit", "-q"], &[("GIT_EDITOR", "true")]);
             }
             let o = match op {
                 "rebase" => self.w.git_env(&["rebase", "--continue"], &[("GIT_EDITOR", "true")]),
@@ -1305,6 +1317,27 @@ impl Engine {
             }
         }
         false
+    }
+
+    /// F48: operations that rebuild attribution from notes + content (reset + recommit, squash
+    /// merge) re-credit the PREVIOUS author of a line that somebody else modified intra-line
+    /// (appended / inserted a token): most characters are still the earlier author's.
+    fn rekey_recredited_previous_author(&mut self, rep: &mut CaseReport, from: usize) {
+        for i in from..rep.violations.len() {
+            let s = rep.violations[i].sig.clone();
+            if !is_misattribution_sig(&s) {
+                continue;
+            }
+            let hit = rep.violations[i]
+                .key
+                .as_ref()
+                .and_then(|k| self.w.model.map.get(k))
+                .map(|e| e.prev_chain.iter().any(|a| a.is_ai() && *a != e.last))
+                .unwrap_or(false);
+            if hit {
+                rep.violations[i].sig = sig(self.pid, "rewrite-recredits-previous-author-of-an-intra-line-modified-line");
+            }
+        }
     }
 
     /// Re-key the misattributions recorded since `from` that have the F37 shape.
@@ -2019,6 +2052,7 @@ impl Engine {
                     return out;
                 };
                 let avail = self.w.rgit(&["rev-list", "--count", &format!("HEAD..{b}")]).out_trim().parse::<u32>().unwrap_or(0);
+                let viol_before_squash = rep.violations.len();
                 let snap = self.checks.preservation.then(|| self.ai_snapshot());
                 self.w.git(&["merge", "--squash", &b]);
                 let um = self.unmerged_paths();
@@ -2063,6 +2097,7 @@ impl Engine {
                 if self.checks.safety {
                     self.check_safety(rep, kind);
                 }
+                self.rekey_recredited_previous_author(rep, viol_before_squash);
             }
             HOp::CiSquash { branch } => {
                 // the CI rewrite is not in C02's list of preserving operations: it is driven
@@ -2157,6 +2192,7 @@ impl Engine {
                         self.set_taint("reset-onto-commit-with-leftover-working-log-inherits-stale-attribution", rep);
                     }
                 }
+                let viol_before_reset = rep.violations.len();
                 let snap = self.checks.preservation.then(|| self.ai_snapshot());
                 let o = self.w.git(&["reset", if soft { "--soft" } else { "--mixed" }, "-q", &format!("HEAD~{k}")]);
                 out.ok = o.ok();
@@ -2173,6 +2209,7 @@ impl Engine {
                             if self.checks.safety {
                                 self.check_safety(rep, kind);
                             }
+                            self.rekey_recredited_previous_author(rep, viol_before_reset);
                             self.w.next_epoch();
                         }
                         _ => {
